@@ -1,6 +1,6 @@
 """C17 - registry names and integers correspond one-to-one with the IANA assignments."""
 from lib.prov import Prov, show, is_call, fold
-from lib.guards import outcomes, normalize_bool_cond
+from lib.guards import outcomes, normalize_bool_cond, cond_variants
 from spec.iana import REGISTRIES, PRIVATE_USE
 from lib.evalterm import ev, Unknown, consts_in, break_points
 
@@ -220,8 +220,8 @@ def _classify(ctx, key, private):
                     nb = normalize_bool_cond(c)
                     if nb and is_call(nb[0], "iana::WithPrivateRange::is_private") and nb[1] is True and nb[0][2][0] == payload:
                         g_priv = True
-                    if c[0][0] == "discr" and is_call(c[0][1], "iana::EnumI64::from_i64") and c[0][1][2][0] == payload \
-                            and ((c[1] == "eq" and c[2] == 0) or (c[1] == "ne" and c[2] == (1,))):
+                    cv = cond_variants(prog, pv, c)
+                    if cv and is_call(cv[0], "iana::EnumI64::from_i64") and cv[0][2][0] == payload and cv[1] == {"None"}:
                         g_none = True
                 seen["PrivateUse"] = ok and g_none and g_priv
             elif v == "Text":
